@@ -94,22 +94,34 @@ type result struct {
 }
 
 type kindDef struct {
-	name     string
-	cfgs     []string
-	prefixes func(cfg string) []string
-	paths    func(cfg, prefix string) []string
-	run      func(e *kenv, k kase) result // called inside a synctest bubble
+	name         string
+	cfgs         []string
+	prefixes     func(cfg string) []string
+	morePrefixes func(cfg string) []string // thorough tier only
+	paths        func(cfg, prefix string) []string
+	run          func(e *kenv, k kase) result // called inside a synctest bubble
 }
 
-func (kd kindDef) cases() []kase {
+// cases: quick = {p; p,p; p,q}; thorough additionally every sequence of three
+// paths and the kind's extra prefixes.
+func (kd kindDef) cases(thorough bool) []kase {
 	var out []kase
 	for _, c := range kd.cfgs {
-		for _, p := range kd.prefixes(c) {
+		pre := kd.prefixes(c)
+		if thorough && kd.morePrefixes != nil {
+			pre = append(append([]string{}, pre...), kd.morePrefixes(c)...)
+		}
+		for _, p := range pre {
 			ps := kd.paths(c, p)
 			for _, a := range ps {
 				out = append(out, kase{kd.name, c, p, []string{a}})
 				for _, b := range ps {
 					out = append(out, kase{kd.name, c, p, []string{a, b}}) // b == a: twice the same path
+					if thorough {
+						for _, d := range ps {
+							out = append(out, kase{kd.name, c, p, []string{a, b, d}})
+						}
+					}
 				}
 			}
 		}
@@ -145,7 +157,7 @@ func runMatrix(t *testing.T, run *report.Run, kd kindDef, envs []*kenv) {
 	if !run.WantPart(part) {
 		return
 	}
-	cases := kd.cases()
+	cases := kd.cases(run.Thorough())
 	var next int64 = -1
 	var st matrixStats
 	var wg sync.WaitGroup
@@ -204,9 +216,9 @@ func runMatrix(t *testing.T, run *report.Run, kd kindDef, envs []*kenv) {
 	st.heldKinds.Range(func(k, _ any) bool { hk = append(hk, k.(string)); return true })
 	sort.Strings(hk)
 	run.AddPart(report.Part{Name: part, Engine: "A:complete-cross-product + C:kernel-maps/test-run", Exhaustive: true,
-		Bound:  fmt.Sprintf("%d configurations x prefixes x {p, p;p, p;q} over the kind's termination paths = %d cases", len(kd.cfgs), len(cases)),
+		Bound:  fmt.Sprintf("%d configurations x prefixes x {p, p;p, p;q%s} over the kind's termination paths = %d cases", len(kd.cfgs), map[bool]string{true: ", p;q;r", false: ""}[run.Thorough()], len(cases)),
 		States: st.cases, Transitions: st.cases, Outcomes: int64(len(hk)),
-		Note:   fmt.Sprintf("%d cases in which the victim held something before termination; %d fast-path answers for the victim before termination; distinct holdings: %s", st.held, st.tx, strings.Join(hk, " | "))})
+		Note: fmt.Sprintf("%d cases in which the victim held something before termination; %d fast-path answers for the victim before termination; distinct holdings: %s", st.held, st.tx, strings.Join(hk, " | "))})
 	if len(hk) > 0 {
 		run.Sample(map[string]any{"part": part, "cases": len(cases), "first": cases[0].trace(), "last": cases[len(cases)-1].trace(), "holdings": hk})
 	}
